@@ -131,7 +131,7 @@ func TestSurvey(t *testing.T) {
 		if i := strings.Index(first, "disagrees with the operation: ["); i >= 0 {
 			rest := first[i+len("disagrees with the operation: ["):]
 			kind := strings.SplitN(rest, "@", 2)[0]
-			k = "UNFAITHFUL " + kind
+			k = v.Finding + " | UNFAITHFUL " + kind
 			if strings.Contains(strings.SplitN(rest, "]", 2)[0], "(__typename)") {
 				k += " typename"
 			}
